@@ -150,11 +150,17 @@ class Ctx:
     def begin_case(self):
         from vf import boot
         self.evaluations += 1
-        boot.reseed(0)
         if boot.R is not None:
-            # a case is a pure function of its description: no timers or clock value leak from the previous case
+            # a case is a pure function of its description: no timers, queued eventual-sends or clock value leak from the previous case
+            for _ in range(4):
+                boot.cancel_all_timers_keep_immediate()
+                try:
+                    boot.drain(limit=2000)
+                except Exception:
+                    pass
             boot.cancel_all_timers()
             boot.R.rightNow = boot.EPOCH
+        boot.reseed(0)
 
     def drive(self, strategy, n, run_case, shrink=True):
         """Hypothesis-driven search.  `strategy` yields JSON-able case dicts;
